@@ -40,6 +40,19 @@ fn measured<T>(f: impl FnOnce() -> T) -> (T, usize) {
 pub fn run(out: &mut Out, tier: &str, seed: u64) {
     let mut rng = Rng::new(seed, "c04");
     let thorough = tier == "thorough";
+    // authenticator verification on operands chosen for carries (accumulators at p-1, p, p+1, 2^130-1, r at its extremes):
+    // a verdict, never a panic -- with the right authenticator and with a wrong one
+    for (key, msg, what) in crate::c07::poly_adversarial() {
+        let mac = sodium::onetimeauth(&msg, &key);
+        let mut bad = mac; bad[3] ^= 0x20;
+        for (which, m) in [("correct", mac), ("wrong", bad)] {
+            out.search_evaluations += 2;
+            let r = guard(|| dryoc::classic::crypto_onetimeauth::crypto_onetimeauth_verify(&m, &msg, &key));
+            if r.is_panic() { out.hit("onetimeauth.verify.panics", format!("{} authenticator, {}", which, what), json!({"op":"onetimeauth.verify","key":hx(&key),"msg":hx(&msg),"mac":hx(&m),"what":what})); }
+            let r2 = guard(|| dryoc::onetimeauth::OnetimeAuth::compute_and_verify(&StackByteArray::<16>::from(&m), StackByteArray::<32>::from(&key), &msg));
+            if r2.is_panic() { out.hit("obj.onetimeauth.compute_and_verify.panics", format!("{} authenticator, {}", which, what), json!({"op":"obj.OnetimeAuth.compute_and_verify","key":hx(&key),"msg":hx(&msg),"mac":hx(&m),"what":what})); }
+        }
+    }
     let nmax = if thorough { 400 } else { 160 };
     let (k, n): ([u8; 32], [u8; 24]) = (rng.arr(), rng.arr());
     let ((pka, ska), (pkb, skb)) = crate::aead::box_pairs(&mut rng, 1)[0];
